@@ -2162,9 +2162,14 @@ class Message(Group):
         return _valid_z_message_name(self.name)
 
     def _get_encoding_chars(self):
-        msh_2 = self.msh.msh_2.msh_2_1.children[0].value.value
+        try:
+            msh_2 = self.msh.msh_2.msh_2_1.children[0].value.value
+            msh_1 = self.msh.msh_1.msh_1_1.children[0].value.value
+        except (IndexError, AttributeError):
+            # the MSH segment, MSH-1 or MSH-2 has been removed: nothing says which characters are in use
+            return get_default_encoding_chars(self.version)
         chars = {
-            'FIELD': self.msh.msh_1.msh_1_1.children[0].value.value,
+            'FIELD': msh_1,
             'COMPONENT': msh_2[0],
             'REPETITION': msh_2[1],
             'ESCAPE': msh_2[2],
